@@ -662,7 +662,7 @@ func (hm *hintMgr) findValidPaths(chunkID int) (hints []string) {
 	return
 }
 
-func (hm *hintMgr) loadHintsByChunk(chunkID int) (datasize uint32) {
+func (hm *hintMgr) loadHintsByChunk(chunkID int, dataFileSize uint32) (datasize uint32) {
 	paths0 := hm.findValidPaths(chunkID)
 	l := len(paths0)
 	if l == 0 {
@@ -685,6 +685,15 @@ func (hm *hintMgr) loadHintsByChunk(chunkID int) (datasize uint32) {
 			utils.Remove(p)
 		} else {
 			logger.Infof("load hint %s datasize = %d", p, sp.file.datasize)
+			if sp.file.datasize > dataFileSize {
+				// dumped before the records it describes reached the data file (the process died in between):
+				// drop it and everything after it, that part of the data file is indexed again from the data
+				logger.Errorf("hint beyond data: hintpath=%s datasize=%d > %d", p, sp.file.datasize, dataFileSize)
+				err = fmt.Errorf("hint beyond data")
+				verifPoint("fs.remove", p)
+				utils.Remove(p)
+				continue
+			}
 			if sp.file.datasize < datasize {
 				logger.Errorf("later hint has smaller datasize %s %d < %d", p, sp.file.datasize, datasize)
 			} else {
